@@ -60,6 +60,17 @@ wrappers killed the worker (exit 2, "ERROR") instead of producing a verdict. Wor
 panic whose stack passes through library code into a violation of the property under check
 (`<id>:uncaught-panic:<site>`); a panic with no library frame stays a harness error.
 
+Rounds 5 and 6 (40 changes, asked for "the subtlest change you can think of" along named dimensions: how the
+object was obtained, option combinations, a particular second, range edges, helper functions, sibling accessors,
+argument values, rare calendar configurations, table entries, negative intermediates) were caught as-is in 31
+cases; 7 led to the machinery listed at the end of section 0.1. The common cause of every miss was again a
+dimension of the input space that the harness held constant: the constructor used, the sub-second part of a
+`time.Time`, pairs of moments less than a minute apart, the length argument of the `...By(n)` lists, a second
+entry point to the same table (`NewLunarMonthFromYm`), two charts evaluated back to back in one process, a lookup
+that misses. One of them (a mutex leaked on a lookup miss) also exposed two defects of the machinery itself, see
+section 7. Two changes were judged not to break the property as stated (they need the caller to modify a
+container returned by the library; `seeded_out_of_scope/README.md`).
+
 ### 10.2 Hand-written overlay mutants (`selftest.py`, results in `selftest.json`)
 
 %d mutants (1–3 per property, listed with their intent in `selftest.py`) are applied through the build
